@@ -37,7 +37,7 @@ func (g *mutableGen) generate() {
 	g.P("if fd.IsExtension() {")
 	g.P("panic(", fmtPkg.Ident("Errorf"), "(\"proto3 declared messages do not support extensions: ", g.message.Desc.FullName(), "\"))")
 	g.P("}")
-	g.P("panic(fmt.Errorf(\"message ", g.message.Desc.FullName(), " does not contain field %s\", fd.FullName()))")
+	g.P("panic(", fmtPkg.Ident("Errorf"), "(\"message ", g.message.Desc.FullName(), " does not contain field %s\", fd.FullName()))")
 	g.P("}")
 	g.P("}")
 }
